@@ -87,7 +87,9 @@ def make_case(tier, seed, index):
     quirks = {"mbap_len": MBAP_LEN[index % len(MBAP_LEN)] if tr == "tcp" else None,
               "es_settings_len": ES_SETTINGS_LENS[index % len(ES_SETTINGS_LENS)] if fam == "ES" else None,
               # ... and an application that runs the library's logger at DEBUG level
-              "debug_log": index % 11 == 5}
+              "debug_log": index % 11 == 5,
+              # every other case has a valid clock; its year byte sweeps 0..255 (2000..2255)
+              "clock": ((index * 37) % 256) if index % 2 == 0 else None}
     if fill == "step":
         total = STEP_POLLS[tier]
         mult = 40503 if total < 65536 else 1
@@ -126,6 +128,12 @@ def run_case(case, oracle="plain"):
         dev.mbap_len = case["mbap_len"]
     if case.get("es_settings_len") is not None:
         dev.es_settings_len = case["es_settings_len"]
+    if case.get("clock") is not None and fam in ("ET", "DT"):
+        # a VALID inverter clock (the fills practically never produce one): year byte from the whole 0..255 range
+        y, sd = case["clock"], case["seed"]
+        ts = bytes([y, 1 + sd % 12, 1 + (sd >> 3) % 28, (sd >> 5) % 24, (sd >> 2) % 60, (sd >> 1) % 60])
+        dev.set_bytes(35100 if fam == "ET" else 30100, ts)
+        dev.set_bytes(45200 if fam == "ET" else 40313, ts)
     violations = []
     stats = {"polls": 0, "values_checked": 0, "single_reads": 0}
     world.events = _Quiet()
@@ -306,6 +314,15 @@ def run_case(case, oracle="plain"):
                             violations.append(viol(key, f"{fam}/{var}/{tr} fill={case['fill']} k={k}: {sid} = {data[sid]!r} "
                                                    f"but the code {sid[:-6]} of the same result is {data[sid[:-6]]!r} "
                                                    f"(table lookup gives {want!r})"))
+                # a total equals the sum of its parts AS REPORTED IN THE SAME RESULT, to the watt, when every part is listed
+                parts = [f"ppv{i}" for i in range(1, 5 if fam == "ET" else 4)]
+                if fam in ("ET", "DT") and all(p_ in data and isinstance(data[p_], int) for p_ in parts) \
+                        and isinstance(data.get("ppv"), int) and data["ppv"] != sum(data[p_] for p_ in parts):
+                    key = f"C13:{fam}:formula:ppv-sum"
+                    if key not in {v["key"] for v in violations}:
+                        violations.append(viol(key, f"{fam}/{var}/{tr} fill={case['fill']} k={k}: ppv = {data['ppv']} but "
+                                               f"{' + '.join(parts)} of the same result = "
+                                               f"{' + '.join(str(data[p_]) for p_ in parts)} = {sum(data[p_] for p_ in parts)}"))
                 if fam == "ET":
                     # the documented formulas over the RAW VALUES OF THE SAME RESULT (whatever class reports them)
                     ap_, gio_, hc_ = data.get("active_power"), data.get("grid_in_out"), data.get("house_consumption")
